@@ -137,6 +137,16 @@ def cmp_records(rec, clause, A, B, scale, tol, msg, sx=1.0, sy=1.0, lens_scale=1
     """B must equal A with x,L multiplied by sx; y,M by sy; positions and opd by lens_scale."""
     worst = 0.0
     same = True
+    # rays that travel steeper than ~84 deg to the axis somewhere are outside the conditioning of the tracer (the
+    # iterated intersection steps by dz/N): whether such a ray converges flips with rounding, so it is compared in
+    # neither lens (same column in both; counted)
+    if A['N'].shape[1] == B['N'].shape[1]:
+        with np.errstate(invalid='ignore'):
+            steep = np.any(np.abs(A['N']) < 0.1, axis=0) | np.any(np.abs(B['N']) < 0.1, axis=0)
+        if steep.any() and not steep.all():
+            rec.event('rays_excluded_steep', int(steep.sum()))
+            A = {f: np.where(steep[None, :], np.nan, v) for f, v in A.items()}
+            B = {f: np.where(steep[None, :], np.nan, v) for f, v in B.items()}
     _posA = A['x'] if (skipA is None or A['x'].shape[0] == B['x'].shape[0]) else np.delete(A['x'], skipA, axis=0)
     for f in ('x', 'y', 'z', 'L', 'M', 'N', 'opd', 'I'):
         if f not in A or f not in B:
@@ -226,9 +236,12 @@ def check_case(case, rec):
             # ... or reach the dummy only after having passed the next surface (the plane cuts it inside the beam),
             # so that the next surface then lies behind them
             lost |= np.isfinite(B['x'][g + 1]) & ~np.isfinite(B['x'][g + 2]) & np.isfinite(A['x'][g + 1])
-        reach = np.isfinite(A['x'][g])
-        rec.check('dummy-surface', reach.sum() < 6 or lost.sum() <= 0.5 * reach.sum(), key='dummy-surface:loses-rays',
-                  msg=f'a dummy plane after surface {g} lost {int(lost.sum())} of {int(reach.sum())} rays')
+        # the loss rule speaks about rays that complete the sequence in the original lens (a ray that the original
+        # lens itself loses further on may well be travelling backwards where the dummy stands)
+        reach = np.isfinite(A['x'][-1])
+        lost_img = lost & reach
+        rec.check('dummy-surface', reach.sum() < 6 or lost_img.sum() <= 0.5 * reach.sum(), key='dummy-surface:loses-rays',
+                  msg=f'a dummy plane after surface {g} lost {int(lost_img.sum())} of {int(reach.sum())} rays that reach the image')
         B = {f: np.delete(v, g + 1, axis=0) for f, v in B.items()}
         if lost.any():
             rec.event('rays_excluded_lost_at_dummy', int(lost.sum()))
